@@ -1,11 +1,11 @@
-(* C02 - common definitions and tactics for the proofs about ParkModel (the code as it is: step true true). *)
+(* C02 - common definitions and tactics for the proofs about ParkModel (the code as it is: step true true true). *)
 From Coq Require Import List ZArith Bool Arith Lia.
 Import ListNotations.
 Require Import MayV.Rt.AtomicDur MayV.Base.BlockerSpec MayV.Rt.ParkModel.
 Open Scope Z_scope.
 
-Definition stepF := step true true.
-Definition ReachF := Reach true true.
+Definition stepF := step true true true.
+Definition ReachF := Reach true true true.
 
 Lemma upd_same {A} (f : nat -> A) i v : upd f i v i = v.
 Proof. unfold upd. now rewrite Nat.eqb_refl. Qed.
@@ -22,7 +22,7 @@ Definition urun (u : upc) : bool := match u with USusp | UWkQ | UAway | UDead =>
 Definition wkloop (u : upc) : bool := match u with UWkY1 | UWkY2 | UWkQ | UWkY3 | UWkE => true | _ => false end.
 Definition guard_on (k : kpc) : bool :=
   match k with
-  | KStore | KChk | KStake | KSgoff _ | KSload | KFtake | KFgoff _ | KSetco | KCchk | KC1 | KC2 | KC3 | KC3s | KC4 | KGoff => true
+  | KReg | KStore | KChk | KStake | KSgoff _ | KSload | KFtake | KFgoff _ | KSetco | KCchk | KC1 | KC2 | KC3 | KC3s | KC4 | KGoff => true
   | _ => false end.
 
 (* ---- tactics ---- *)
@@ -41,7 +41,7 @@ Ltac open_match H :=
   | context [match ?x with _ => _ end] => let E := fresh "E" in destruct x eqn:E; try discriminate H
   end.
 Ltac step_inv H :=
-  unfold stepF in H; cbn [step] in H; unfold ustep, kstep, clear_tok, die in H;
+  unfold stepF in H; cbn [step] in H; unfold ustep, kstep, clear_tok, die, setco_ahead in H;
   open_match H; open_if H;
   try (injection H as H); subst.
 
